@@ -581,7 +581,7 @@ spr_str[288] = 'CTR'
 
 sr_str = ['SR%d'%r for r in range(0x10)]
 
-all_regs = regs_str+cop_str+copr_str+cr_str+crb_str+fpr_str+spr_str
+all_regs = regs_str+cop_str+copr_str+cr_str+crb_str+fpr_str+spr_str+sr_str
 
 
 def is_symbol(a):
@@ -1625,6 +1625,12 @@ class ppc_exts(ppc_crand, ppc_mn):
 
     do_args = [('ra',reg), ('rs',reg)]
 
+    @classmethod
+    def check_opts(cls, rest):
+        if rest in ["", "."]:
+            return True
+        return False
+
     def rc2str(self):
         return ['','.'][self.rc==1]
 
@@ -1735,14 +1741,14 @@ class ppc_wi(ppc_crand, ppc_mn):
     do_args = [('rt',reg), ('ra',reg), ('nb',imm)]
 
 
-class ppc_stfdx(ppc_lbz):
+class ppc_stfdx(ppc_crand, ppc_mn):
     mask_list = [bm_int011111, bm_rt, bm_ra, bm_rb, bm_opc10, bm_int0]
     namestr = ['STFDUX', 'STFDX', 'STFIWX', 'STFSUX', 'STFSX']
-    namsdct = {'STFDX':727, 'STFDUX':759, 'STFIWX':983, 'STFSX':663, 'STFSUX':695}
-    mask = {21:bm_set_meta("bm_wiopc",(bm_set,),{"fbits":namsdct.values(), 'l':10})}
-    strname = dict((x[1], x[0]) for x in namsdct.items())
+    namedct = {'STFDX':727, 'STFDUX':759, 'STFIWX':983, 'STFSX':663, 'STFSUX':695}
+    mask = {21:bm_set_meta("bm_wiopc",(bm_set,),{"fbits":namedct.values(), 'l':10})}
+    strname = dict((x[1], x[0]) for x in namedct.items())
 
-    do_args = [('rt',fpr), ('ra',reg), ('simm',imm)]
+    do_args = [('rt',fpr), ('ra',reg), ('rb',reg)]
 
 class ppc_stfs(ppc_stfd):
     mask_list = [bm_int110100, bm_rt, bm_ra, bm_simm]
@@ -1781,6 +1787,11 @@ class ppc_mcrxr(ppc_crand, ppc_mn):
 
     do_args = [('bf',cr)]
 
+    def name2str(self):
+        return self.namestr[0]
+    def str2name(self, n):
+        self.opc10 = 512
+
 
 
 class ppc_mfcr(ppc_crand, ppc_mn):
@@ -1793,10 +1804,17 @@ class ppc_mfcr(ppc_crand, ppc_mn):
     do_args = [('rt',reg)]
 
 
-class ppc_mffsx(ppc_cntlzw, ppc_mfcr):
+class ppc_mffsx(ppc_cntlzw, ppc_mfcr, ppc_mn):
     mask_list = [bm_int111111, bm_rt, bm_int00000, bm_int00000, bm_opc10, bm_rc]
     namestr = ['MFFSR']
     mask = {21:bm_set_meta("bm_mcrxropc",(bm_set,),{"fbits":[583], 'l':10})}
+
+    do_args = [('rt',fpr)]
+
+    def name2str(self):
+        return self.namestr[0]
+    def str2name(self, n):
+        self.opc10 = 583
 
 
 class ppc_mtfsb(ppc_exts, ppc_mn):
@@ -1852,6 +1870,12 @@ class ppc_mulhw(ppc_mn):
         return self.strname[self.opc9]
     def str2name(self, n):
         self.opc9 = self.namedct[n]
+    @classmethod
+    def check_opts(cls, rest):
+        if rest in ["", "."]:
+            return True
+        return False
+
     def rc2str(self):
         return ['','.'][self.rc==1]
 
@@ -1904,7 +1928,7 @@ class ppc_rlwinm(ppc_rlwimi):
     mask_list = [bm_int010101, bm_rt, bm_ra, bm_sh, bm_mb, bm_me, bm_rc]
     namestr = ['RLWINM']
 
-class ppc_rlwnm(ppc_mn):
+class ppc_rlwnm(ppc_rlwimi, ppc_mn):
     mask_list = [bm_int010111, bm_rt, bm_ra, bm_rb, bm_mb, bm_me, bm_rc]
     namestr = ['RLWNM']
 
@@ -1926,6 +1950,8 @@ class ppc_sc(ppc_mn):
 
     def parse_args(self, args):
         self.offs = 0
+        if args:
+            self.offs = str2imm(args.pop())
 
     def __str__(self):
         name = self.getname()
@@ -1970,6 +1996,10 @@ class ppc_tlb(ppc_sync, ppc_mn):
     strname = dict((x[1], x[0]) for x in namedct.items())
 
     do_args = [('rb',reg)]
+
+    def __str__(self):
+        # (ppc_eieio prints the name only)
+        return ppc_mn.__str__(self)
 
 class ppc_xori(ppc_addi):
     mask_list = [bm_int011010, bm_rt, bm_ra, bm_simm]
@@ -2053,7 +2083,7 @@ class ppc_fmadd(ppc_fdiv, ppc_mn):
 
     do_args = [('frt',fpr), ('fra',fpr), ('frb',fpr), ('frc',fpr)]
 
-class ppc_fmadds(ppc_fdiv):
+class ppc_fmadds(ppc_fmadd):
     mask_list = [bm_int111011, bm_frt, bm_fra, bm_frb, bm_frc, bm_opc5, bm_rc]
     namestr = ['FMADDS', 'FMSUBS', 'FNMADDS', 'FNMSUBS']
     namedct = {'FMADDS':29, 'FMSUBS':28, 'FNMADDS':31, 'FNMSUBS':30}
@@ -2090,7 +2120,7 @@ class ppc_fres(ppc_fdiv, ppc_mn):
 
 
 class ppc_frsqrte(ppc_fres):
-    mask_list = [bm_int111111, bm_frt, bm_fra, bm_int00000, bm_frc, bm_opc5, bm_rc]
+    mask_list = [bm_int111111, bm_frt, bm_int00000, bm_frb, bm_int00000, bm_opc5, bm_rc]
     namestr = ['FRSQRTE']
     namedct = {'FRSQRTE':26}
     mask = {26:bm_set_meta("bm_fmaddsopc",(bm_set,),{"fbits":namedct.values(), 'l':5})}
